@@ -74,3 +74,6 @@ package websocket
 //@   after call Buffer).Len: blen = res0
 //@   after call WindowSize: ws = res0
 //@   assert call Buffer).Next: held(t.readWindowBufMu) && appended && arg0 == t.readWindowBuf && arg1 == blen - ws
+
+//@ guarded[C09] Transport.writeWindowBufMu: writeWindowBuf
+//@ guarded[C09] Transport.readWindowBufMu: readWindowBuf
